@@ -105,7 +105,7 @@ def load_source(work, arg, known_ns=None):
     chunks = r.out.split(oracle.SEPB)
     last = chunks.pop()
     if last not in (b"", b"\n"):
-        raise common.MachineryError("unexpected tail after last separator for %s: %r" % (arg, last[:40]))
+        raise MalformedReference("%s alone with --separator %s: %d bytes follow the last separator (%r...): a message was printed without the separator after it" % (arg, SEP, len(last), last[:40]))
     try:
         ref, _tail, _ = oracle.single_source_messages(arg, work)
     except common.MachineryError as e:
